@@ -260,19 +260,34 @@ def run(repo, rep):
     for e, s in st:
         key, val = expand_items(e.args[0]), expand_items(e.args[1])
         conds = [expand_items(x) for x in e.conds]
-        gen_ok = False
-        # loop variable: element of a generator filtered on result_reason == 0
-        import re
-        m = re.search(r'ITEM\(\((\w+) for (\w+) in (.+?) if (.+?)\)\)', key + ' ' + val)
-        if m and m.group(1) == m.group(2) and m.group(4) in ('%s.result_reason == 0' % m.group(1), '0 == %s.result_reason' % m.group(1)):
-            gen_ok = True
-            src = m.group(3)
-            if not src.endswith('.variable_items[1:-1]'):
-                probs.append('accepted contexts are taken from %s, not from the reply\'s presentation context items' % src)
-        if not gen_ok and not any('result_reason == 0' in x and x.startswith('+') for x in conds):
+        # the loop variable: an element of the reply's presentation-context items, either filtered by a
+        # generator on result_reason == 0 or tested on the path
+        item, src, gen_ok = None, None, False
+        try:
+            kt = ast.parse(key + ' if 1 else ' + val, mode='eval').body
+        except SyntaxError:
+            kt = None
+        for n in (ast.walk(kt) if kt is not None else []):
+            if isinstance(n, ast.Call) and isinstance(n.func, ast.Name) and n.func.id == 'ITEM' and len(n.args) == 1:
+                item = norm(n)
+                a0 = n.args[0]
+                if isinstance(a0, ast.GeneratorExp) and len(a0.generators) == 1 and isinstance(a0.generators[0].target, ast.Name) \
+                        and isinstance(a0.elt, ast.Name) and a0.elt.id == a0.generators[0].target.id:
+                    g0 = a0.generators[0]
+                    src = norm(g0.iter)
+                    gen_ok = [norm(x) for x in g0.ifs] in (['%s.result_reason == 0' % g0.target.id], ['0 == %s.result_reason' % g0.target.id])
+                else:
+                    src = norm(a0)
+                break
+        if item is None:
+            item = 'ITEM(?)'
+            probs.append('%s is not written from an element of the reply\'s presentation contexts' % e.callee)
+        elif not (src.endswith('.variable_items[1:-1]') and src.startswith(rsp)):
+            probs.append('accepted contexts are taken from %s, not from the reply\'s presentation context items' % src)
+        if not gen_ok and not any(x in ('+%s.result_reason == 0' % item, '+0 == %s.result_reason' % item,
+                                        '-%s.result_reason != 0' % item, '-%s.result_reason' % item,
+                                        '+not %s.result_reason' % item) for x in conds):
             probs.append('%s written without testing result_reason == 0' % e.callee)
-        ctx = 'ITEM(' + m.group(0)[5:] if m else None
-        item = m.group(0) if m else 'ITEM(?)'
         if e.callee.startswith('self.sop_classes_as_scu'):
             if key != 'self.context_def_list[%s.context_id].sop_class' % item:
                 probs.append('SCU table keyed by %s, not by the SOP class proposed under the reply\'s context id' % key)
